@@ -322,8 +322,13 @@ func (b *Batch) WriteHarness(d *Design) error {
 			fmt.Fprintf(&src, "%q, ", m.Name)
 		}
 		src.WriteString("},\n\t\t\tErrorTypes: map[string]any{\n")
+		seenErr := map[string]bool{}
 		for _, et := range si.ErrTypes {
 			kv := strings.SplitN(et, "=", 2)
+			if seenErr[kv[0]] {
+				continue // two methods declare the same error name with types of their own: the first is registered
+			}
+			seenErr[kv[0]] = true
 			if strings.HasPrefix(kv[1], "*") {
 				fmt.Fprintf(&src, "\t\t\t\t%q: (*svc%d.%s)(nil),\n", kv[0], i, kv[1][1:])
 			} else {
